@@ -18,9 +18,10 @@ import (
 // streaming kinds, validations and defaults.
 
 type gg struct {
-	r    *vc.Rand
-	s    *spec.Spec
-	opts genOpts
+	r      *vc.Rand
+	s      *spec.Spec
+	opts   genOpts
+	unions int
 }
 
 type genOpts struct {
@@ -91,6 +92,17 @@ func (x *gg) pickTag(used map[int]bool) int {
 	t := 100 + len(used)
 	used[t] = true
 	return t
+}
+
+// protoOf groups the primitive kinds that share a Go type in generated protobuf code.
+func protoOf(k string) string {
+	switch k {
+	case spec.Int, spec.Int32:
+		return "int32"
+	case spec.UInt, spec.UInt32:
+		return "uint32"
+	}
+	return k
 }
 
 func ip(i int) *int         { return &i }
@@ -201,7 +213,9 @@ func (x *gg) genElem(depth int, self string) *spec.Attr {
 	case c < 6 || depth > 2:
 		e.Type = &spec.Type{Kind: x.prim()}
 		if x.chance(1, 6) {
-			if v := x.genVal(e.Type.Kind); !v.Empty() {
+			// (an Enum on a sized integer element makes goa's example generator panic for every transport:
+			// expr.Map.MakeMap stores the untyped enum value - C01/C12 territory, not drawn here)
+			if v := x.genVal(e.Type.Kind); !v.Empty() && !(len(v.Enum) > 0 && spec.IsNumeric(e.Type.Kind)) {
 				e.Val = v
 				x.s.AddFeature("elem-validation")
 			}
@@ -211,6 +225,7 @@ func (x *gg) genElem(depth int, self string) *spec.Attr {
 		x.s.AddFeature("nested-array")
 	case c < 9:
 		e.Type = &spec.Type{Kind: spec.Map, Key: x.mapKey(), Elem: x.genElem(depth+1, self)}
+		x.fixMapElem(e.Type)
 		x.s.AddFeature("nested-map")
 	default:
 		cands := x.refCandidates(self)
@@ -223,6 +238,51 @@ func (x *gg) genElem(depth int, self string) *spec.Attr {
 		x.noteRef(t, self, "elem")
 	}
 	return e
+}
+
+// hasObjMap reports whether a value of type t contains (outside helper-converted positions) a map whose values
+// are objects.
+func (x *gg) hasObjMap(t *spec.Type, seen map[string]bool) bool {
+	if t == nil {
+		return false
+	}
+	switch t.Kind {
+	case spec.Ref:
+		if seen[t.Ref] {
+			return false
+		}
+		seen[t.Ref] = true
+		if ut := x.s.Type(t.Ref); ut != nil {
+			return x.hasObjMap(ut.Def, seen)
+		}
+	case spec.Map:
+		rt, _ := x.s.Resolve(t.Elem.Type)
+		if rt != nil && rt.Kind == spec.Object {
+			return true
+		}
+		return x.hasObjMap(t.Elem.Type, seen)
+	case spec.Array:
+		return x.hasObjMap(t.Elem.Type, seen)
+	case spec.Object, spec.Union:
+		for _, a := range t.Attrs {
+			if x.hasObjMap(a.Type, seen) {
+				return true
+			}
+		}
+	}
+	return false
+}
+
+// fixMapElem keeps maps of objects from nesting (goa's transform code reuses one variable name for the values
+// of every such map it inlines: matrix entry "nested-map-of-user-types").
+func (x *gg) fixMapElem(m *spec.Type) {
+	if x.opts.Broken {
+		return
+	}
+	rt, _ := x.s.Resolve(m.Elem.Type)
+	if rt != nil && rt.Kind == spec.Object && x.hasObjMap(rt, map[string]bool{}) {
+		m.Elem = &spec.Attr{Type: &spec.Type{Kind: x.prim()}}
+	}
 }
 
 func (x *gg) noteRef(t *spec.UserType, self, where string) {
@@ -251,7 +311,9 @@ func (x *gg) genAttrType(depth int, self string, names map[string]bool) *spec.Ty
 		return &spec.Type{Kind: spec.Array, Elem: x.genElem(depth+1, self)}
 	case c < 14:
 		x.s.AddFeature("map")
-		return &spec.Type{Kind: spec.Map, Key: x.mapKey(), Elem: x.genElem(depth+1, self)}
+		m := &spec.Type{Kind: spec.Map, Key: x.mapKey(), Elem: x.genElem(depth+1, self)}
+		x.fixMapElem(m)
+		return m
 	case c < 18:
 		cands := x.refCandidates(self)
 		if len(cands) == 0 {
@@ -263,19 +325,26 @@ func (x *gg) genAttrType(depth int, self string, names map[string]bool) *spec.Ty
 	case c < 19:
 		x.s.AddFeature("union")
 		u := &spec.Type{Kind: spec.Union}
+		usedT := map[string]bool{}
 		for i, n := 0, x.r.Range(2, 3); i < n; i++ {
-			// members live in the name space of the enclosing message
+			// members live in the name space of the enclosing message; their types are pairwise distinct
+			// (goa switches on the Go type: matrix entry "oneof-same-member-type")
 			alt := &spec.Attr{Name: x.pickName(names)}
 			cands := x.refCandidates("")
 			if len(cands) > 0 && x.chance(1, 3) {
 				t := cands[x.r.Intn(len(cands))]
-				if t.Kind != "alias" && t.Def.Kind == spec.Object {
+				if t.Kind != "alias" && t.Def.Kind == spec.Object && !usedT[t.Name] {
 					alt.Type = &spec.Type{Kind: spec.Ref, Ref: t.Name}
+					usedT[t.Name] = true
 					x.s.AddFeature("union-usertype")
 				}
 			}
-			if alt.Type == nil {
-				alt.Type = &spec.Type{Kind: x.prim()}
+			for alt.Type == nil {
+				k := x.prim()
+				if !usedT[protoOf(k)] {
+					usedT[protoOf(k)] = true
+					alt.Type = &spec.Type{Kind: k}
+				}
 			}
 			u.Attrs = append(u.Attrs, alt)
 		}
@@ -298,6 +367,14 @@ func (x *gg) genObject(depth int, self string, maxAttrs int) *spec.Type {
 		a := &spec.Attr{Name: x.pickName(names)}
 		a.Type = x.genAttrType(depth, self, names)
 		if a.Type.Kind == spec.Union {
+			// a OneOf name is used once per design: goa names the Go types of the members after the OneOf and the
+			// member only, so that two OneOf("x") with a member "y" collide (matrix entry "oneof-same-name-twice")
+			if !x.opts.Broken {
+				x.unions++
+				base := x.r.Pick("choice", "variant", "either", "alt_value", "pick")
+				a.Name = fmt.Sprintf("%s%d", base, x.unions)
+				names[spec.Norm(a.Name)] = true
+			}
 			// members share the field number space of the enclosing message
 			for _, alt := range a.Type.Attrs {
 				alt.Tag = x.pickTag(tags)
@@ -444,7 +521,9 @@ func (x *gg) genBody(allowNone bool) *spec.Attr {
 		if x.chance(2, 3) {
 			return &spec.Attr{Type: &spec.Type{Kind: spec.Array, Elem: x.genElem(1, "")}}
 		}
-		return &spec.Attr{Type: &spec.Type{Kind: spec.Map, Key: x.mapKey(), Elem: x.genElem(1, "")}}
+		m := &spec.Type{Kind: spec.Map, Key: x.mapKey(), Elem: x.genElem(1, "")}
+		x.fixMapElem(m)
+		return &spec.Attr{Type: m}
 	case c < 12:
 		x.s.AddFeature("body-inline-object")
 		return &spec.Attr{Type: x.genObject(0, "", 5)}
